@@ -107,6 +107,7 @@ class Real:
         self.keep = []
         self.events = {}         # c -> list of events received
         self.listeners = {}
+        self.to_clear = []
         self.tdlog = []
         self.calls = collections.Counter()   # (fid, ctx) -> factory calls
         self.get_ctx = None
@@ -175,6 +176,8 @@ class Real:
         """execute one operation; returns (result class, value id or None)"""
         from asphalt.core import AsyncResourceError, Context, ResourceConflict, ResourceNotFound
         self.step_no += 1
+        while self.to_clear:
+            self.to_clear.pop().clear()
         a = obs["a"]
         c = obs["c"]
         try:
@@ -232,7 +235,7 @@ class Real:
                 else:
                     ctx.add_resource(value, name, types, description="d", **kwargs)
                 if isinstance(types, list):
-                    types.clear()                    # the caller goes on using (here: emptying) the list it passed
+                    self.to_clear.append(types)      # the caller goes on using (here: emptying) the list it passed - before the next step
                 self.remember(value, cid)
                 return "ok", cid
             if a == "AddFac":
@@ -292,7 +295,7 @@ class Real:
                 else:
                     ctx.add_resource_factory(cbk, name, description="fd", **kw)
                 if isinstance(kw.get("types"), list):
-                    kw["types"].clear()              # the caller goes on using (here: emptying) the list it passed
+                    self.to_clear.append(kw["types"])     # the caller goes on using (here: emptying) the list it passed - before the next step
                 return "ok", None
             if a == "Inject":
                 return await self.inject_step(obs)
